@@ -121,14 +121,16 @@ package obfs4
 
 //@ func (*clientHandshake).parseServerHandshake(hs, resp) (n, seed, err)
 //@   serves C02 C06 C10
-//@   requires chsInv(hs) && labelsOK() && outside(resp, hs) && outside(resp, hs.mac)
+//@   requires chsInv(hs)
 //@   modifies hs.serverRepresentative, hs.serverAuth, hs.serverMark, hs.mac.absorbed
 //@   ghost hour := seq(hs.epochHour)
 //@   ghost rep0 := hs.serverRepresentative
 //@   ghost auth0 := hs.serverAuth
 //@   ensures [C02:state] chsInv(hs)
 //@   ensures [C06:first_64_bytes_are_Y_and_AUTH] (rep0 == nil || auth0 == nil) && hs.serverRepresentative != nil ==> seq(hs.serverRepresentative) == sub(seq(resp), 0, 32) && seq(hs.serverAuth) == sub(seq(resp), 32, 64) && fresh(hs.serverRepresentative) && fresh(hs.serverAuth)
-//@   ensures [C06:keeps_first_64_bytes] rep0 != nil && auth0 != nil ==> hs.serverRepresentative == rep0 && hs.serverAuth == auth0 && unchanged(seq(rep0), seq(auth0))
+//@   ensures [C06:keeps_first_64_bytes] rep0 != nil && auth0 != nil ==> hs.serverRepresentative == rep0 && hs.serverAuth == auth0 && unchanged(seq(rep0), seq(auth0)) && unchanged(hs.serverMark)
+//@   ensures (rep0 == nil || auth0 == nil) && hs.serverRepresentative != nil ==> fresh(hs.serverMark)
+//@   ensures fresh(hs.serverMark) || unchanged(hs.serverMark)
 //@   ensures [C10:not_yet_means_short] err == ErrMarkNotFoundYet ==> len(resp) < 8192
 //@   ensures [C02:consumed] err == nil ==> 96 <= n && n <= len(resp) && n <= 8192 && len(seed) == 32 && hs.serverRepresentative != nil && hs.serverAuth != nil
 //@   ensures [C02:mark_checked] err == nil ==> sub(seq(resp), n - 32, n - 16) == sub(HASH(1, hs.mac.hkey, seq(hs.serverRepresentative)), 0, 16)
@@ -145,14 +147,14 @@ package obfs4
 //@       && outside(hs.keypair, filter) && outside(hs.keypair.public, filter) && outside(hs.keypair.private, filter) && outside(hs.serverIdentity, filter) && outside(hs.serverIdentity.public, filter) && outside(hs.serverIdentity.private, filter) && outside(hs.nodeID, filter)
 //@ func (*serverHandshake).parseClientHandshake(hs, filter, resp) (seed, err)
 //@   serves C03 C04 C06 C10
-//@   requires shsInv(hs) && labelsOK() && filter != nil && whole(filter) && outside(resp, hs) && outside(resp, hs.mac) && outside(resp, filter) && hsApart(hs, filter)
+//@   requires shsInv(hs) && filter != nil && whole(filter) && hsApart(hs, filter)
 //@   modifies hs.clientRepresentative, hs.clientMark, hs.mac.absorbed, hs.epochHour, hs.serverAuth, filter.*, now
 //@   ghost rep0 := hs.clientRepresentative
 //@   ghost nt0 := filter.ntests
 //@   ghost now0 := now
 //@   ghost rlen := len(resp)
-//@   loop 1 invariant hsApart(hs, filter)
-//@   loop 1 invariant shsInv(hs) && labelsOK() && hs.clientRepresentative != nil && -1 <= rangeindex && rangeindex < 3 && now >= now0 && filter.ntests >= nt0
+//@   loop 1 invariant hsApart(hs, filter) && (rep0 != nil ==> unchanged(hs.clientMark)) && (rep0 == nil ==> fresh(hs.clientMark)) && (fresh(hs.epochHour) || unchanged(hs.epochHour))
+//@   loop 1 invariant shsInv(hs) && hs.clientRepresentative != nil && -1 <= rangeindex && rangeindex < 3 && now >= now0 && filter.ntests >= nt0
 //@   loop 1 invariant 109 <= pos && pos + 32 <= len(resp) && pos + 32 <= 8192 && (rep0 == nil ==> seq(hs.clientRepresentative) == sub(seq(resp), 0, 32) && fresh(hs.clientRepresentative)) && (rep0 != nil ==> hs.clientRepresentative == rep0)
 //@   loop 1 invariant sub(seq(resp), pos, pos + 16) == sub(HASH(1, hs.mac.hkey, seq(hs.clientRepresentative)), 0, 16)
 //@   loop 1 invariant forall(j, 0, 3, -1 <= aget(arr(&slicelit), j) && aget(arr(&slicelit), j) <= 1)
@@ -161,7 +163,10 @@ package obfs4
 //@       && sub(seq(resp), pos + 16, pos + 32) == sub(HASH(1, hs.mac.hkey, cat(sub(seq(resp), 0, pos + 16), seq(hs.epochHour))), 0, 16)
 //@       && exists(h, (now0 / 1000000000) / 3600 - 1, (now / 1000000000) / 3600 + 2, seq(hs.epochHour) == fmtInt(h, 10))
 //@   ensures [C04:state] shsInv(hs) && hsApart(hs, filter)
-//@   ensures [C06:first_32_bytes_are_X] rep0 == nil && hs.clientRepresentative != nil ==> seq(hs.clientRepresentative) == sub(seq(resp), 0, 32) && fresh(hs.clientRepresentative)
+//@   ensures [C06:first_32_bytes_are_X] rep0 == nil && hs.clientRepresentative != nil ==> seq(hs.clientRepresentative) == sub(seq(resp), 0, 32) && fresh(hs.clientRepresentative) && fresh(hs.clientMark)
+//@   ensures rep0 != nil ==> unchanged(hs.clientMark) && hs.clientRepresentative == rep0
+//@   ensures fresh(hs.epochHour) || unchanged(hs.epochHour)
+//@   ensures fresh(hs.clientMark) || unchanged(hs.clientMark)
 //@   ensures [C10:not_yet_means_short] err == ErrMarkNotFoundYet ==> len(resp) < 8192
 //@   ensures [C04:no_trailing] err == nil ==> 141 <= len(resp) && len(resp) <= 8192 && hs.clientRepresentative != nil && len(seed) == 32
 //@   ensures [C04:mark_checked] err == nil ==> sub(seq(resp), len(resp) - 32, len(resp) - 16) == sub(HASH(1, hs.mac.hkey, seq(hs.clientRepresentative)), 0, 16)
@@ -203,21 +208,22 @@ package obfs4
 //@ func newClientHandshake(nodeID, serverIdentity, sessionKey) (hs)
 //@   serves C02 C06 C10
 //@   requires nodeID != nil && serverIdentity != nil && kpOK(sessionKey)
-//@   ensures [C06:client_mac_key] hs != nil && fresh(hs) && chsInv(hs) && hs.keypair == sessionKey && hs.nodeID == nodeID && hs.serverIdentity == serverIdentity && hs.serverRepresentative == nil && hs.serverAuth == nil
+//@   ensures [C06:client_mac_key] hs != nil && fresh(hs) && chsInv(hs) && hs.keypair == sessionKey && hs.nodeID == nodeID && hs.serverIdentity == serverIdentity && hs.serverRepresentative == nil && hs.serverAuth == nil && hs.serverMark == nil && hs.epochHour == nil && fresh(hs.mac)
 //@   ensures [C06:client_pad_range] 77 <= hs.padLen && hs.padLen <= 8128
 
 //@ func newServerHandshake(nodeID, serverIdentity, sessionKey) (hs)
 //@   serves C03 C04 C06 C10
 //@   requires nodeID != nil && kpOK(serverIdentity) && kpOK(sessionKey)
-//@   ensures [C06:server_mac_key] hs != nil && fresh(hs) && shsInv(hs) && hs.keypair == sessionKey && hs.nodeID == nodeID && hs.serverIdentity == serverIdentity && hs.clientRepresentative == nil
+//@   ensures [C06:server_mac_key] hs != nil && fresh(hs) && shsInv(hs) && hs.keypair == sessionKey && hs.nodeID == nodeID && hs.serverIdentity == serverIdentity && hs.clientRepresentative == nil && hs.clientMark == nil && hs.epochHour == nil && hs.serverAuth == nil && fresh(hs.mac)
 //@   ensures [C06:server_pad_range] 0 <= hs.padLen && hs.padLen <= 8051
 
 //@ func (*obfs4Conn).clientHandshake(conn, nodeID, peerIdentityKey, sessionKey) (err)
 //@   serves C01 C02 C06 C10
 //@   requires hsConn(conn) && conn.encoder == nil && conn.decoder == nil && len(conn.receiveBuffer.content) == 0
-//@   requires nodeID != nil && peerIdentityKey != nil && kpOK(sessionKey) && sessionKey.representative != nil && labelsOK()
+//@   requires nodeID != nil && peerIdentityKey != nil && kpOK(sessionKey) && sessionKey.representative != nil
 //@   modifies conn.encoder, conn.decoder, conn.receiveBuffer.*, conn.Conn.wr, conn.Conn.nwrites, conn.Conn.rd, conn.Conn.nreads, blocked, now
-//@   loop 1 invariant chsInv(hs) && hs.keypair == sessionKey && hsConn(conn) && conn.encoder == nil && conn.decoder == nil && labelsOK()
+//@   loop 1 invariant chsInv(hs) && hs.keypair == sessionKey && hsConn(conn) && conn.encoder == nil && conn.decoder == nil && fresh(hs) && fresh(hs.mac)
+//@   loop 1 invariant 77 <= hs.padLen && hs.padLen <= 8128 && base(hs.serverMark) != &hsBuf && base(hs.epochHour) != &hsBuf
 //@   loop 1 invariant [C10:handshake_rx_bound] len(conn.receiveBuffer.content) < 8192
 //@   assert_at ntor.Kdf [C06:okm_len] arg1 == 144
 //@   assert_at framing.NewEncoder [C06:key_split_client] seq(arg0) == sub(HKDF(seq(seed), T_KEY, M_EXPAND, 0, 144), 0, 72)
@@ -227,3 +233,39 @@ package obfs4
 //@   ensures [C10:handshake_rx_bound] len(conn.receiveBuffer.content) < 8192 + 8192
 //@   ensures [C01:no_stranded_frame] err == nil ==> needMore(conn.decoder, conn.receiveBuffer)
 //@   ensures hsConn(conn)
+
+//@ pred sfOK(sf) := sf != nil && sf.nodeID != nil && kpOK(sf.identityKey) && sf.lenSeed != nil && sf.replayFilter != nil && whole(sf.replayFilter) && 0 <= sf.closeDelay && sf.closeDelay < 60 && 0 <= sf.iatMode && sf.iatMode <= 2
+
+//@ func (*obfs4Conn).serverHandshake(conn, sf, sessionKey) (err)
+//@   serves C03 C04 C06 C10
+//@   requires hsConn(conn) && conn.encoder == nil && conn.decoder == nil && len(conn.receiveBuffer.content) == 0 && sfOK(sf) && kpOK(sessionKey) && sessionKey.representative != nil
+//@   requires outside(conn.Conn, sf.replayFilter) && outside(conn.receiveBuffer, sf.replayFilter) && outside(conn, sf.replayFilter) && outside(sf, sf.replayFilter) && outside(conn.readBuffer, sf.replayFilter)
+//@   requires outside(sessionKey, sf.replayFilter) && outside(sessionKey.public, sf.replayFilter) && outside(sessionKey.private, sf.replayFilter) && outside(sf.identityKey, sf.replayFilter) && outside(sf.identityKey.public, sf.replayFilter) && outside(sf.identityKey.private, sf.replayFilter) && outside(sf.nodeID, sf.replayFilter)
+//@   modifies conn.encoder, conn.decoder, conn.receiveBuffer.*, conn.Conn.wr, conn.Conn.nwrites, conn.Conn.rd, conn.Conn.nreads, conn.Conn.deadline, conn.Conn.rdeadline, blocked, now, sf.replayFilter.*
+//@   ghost nw0 := conn.Conn.nwrites
+//@   ghost now0 := now
+//@   loop 1 invariant shsInv(hs) && hsApart(hs, sf.replayFilter) && hs.keypair == sessionKey && hs.serverIdentity == sf.identityKey && hs.nodeID == sf.nodeID && hsConn(conn) && conn.encoder == nil && conn.decoder == nil && fresh(hs) && fresh(hs.mac)
+//@   loop 1 invariant 0 <= hs.padLen && hs.padLen <= 8051 && sessionKey.representative != nil && base(hs.clientMark) != &hsBuf && base(hs.epochHour) != &hsBuf
+//@   loop 1 invariant [C03:silent_until_accept] conn.Conn.nwrites == nw0
+//@   loop 1 invariant [C03:armed_first] conn.Conn.deadline >= now0 + 30000000000
+//@   loop 1 invariant [C10:handshake_rx_bound] len(conn.receiveBuffer.content) < 8192
+//@   assert_at (net.Conn).Read [C03:armed_first] conn.Conn.deadline >= now0 + 30000000000 && conn.Conn.deadline != 0
+//@   assert_at ntor.Kdf [C06:okm_len] arg1 == 144
+//@   assert_at framing.NewEncoder [C06:key_split_server] seq(arg0) == sub(HKDF(seq(seed), T_KEY, M_EXPAND, 0, 144), 72, 144)
+//@   assert_at framing.NewDecoder [C06:key_split_server] seq(arg0) == sub(HKDF(seq(seed), T_KEY, M_EXPAND, 0, 144), 0, 72)
+//@   assert_at (net.Conn).Write [C06:seed_frame_inline] conn.decoder != nil && len(arg1) <= 8192
+//@   ensures [C03:silent_on_failure] conn.decoder == nil ==> conn.Conn.nwrites == nw0
+//@   ensures [C03:one_write_after_accept] conn.Conn.nwrites <= nw0 + 1
+//@   ensures [C03:keys_only_after_accept] err == nil ==> conn.encoder != nil && conn.decoder != nil && encInv(conn.encoder) && decInv(conn.decoder)
+//@   ensures [C10:deadline_cleared_on_success] err == nil ==> conn.Conn.deadline == 0 && conn.Conn.rdeadline == 0
+//@   ensures [C10:buffer_reset] err == nil ==> len(conn.receiveBuffer.content) == 0
+//@   ensures hsConn(conn)
+
+//@ func (*obfs4Conn).closeAfterDelay(conn, sf, startTime) ()
+//@   serves C03 C10
+//@   requires conn != nil && conn.Conn != nil && sf != nil && 0 <= sf.closeDelay && sf.closeDelay < 60
+//@   modifies conn.Conn.*, blocked, now
+//@   ghost nw0 := conn.Conn.nwrites
+//@   ensures [C03:never_writes] conn.Conn.nwrites == nw0
+//@   ensures [C03:always_closes] conn.Conn.closed
+//@   ensures [C03:fixed_drop_time] conn.Conn.rdeadline == old(conn.Conn.rdeadline) || conn.Conn.rdeadline == startTime + (sf.closeDelay * 1000000000 + 30000000000)
